@@ -167,8 +167,8 @@ theorem evolveOp_ok (impl : Nat → M Unit) (h h' : Heap) (c t : Nat) (r : Optio
 
 /-- the class a class statement creates -/
 theorem subclassOp_result (F : Facts15) (base : Option Nat) (name : String) (ns : Option String)
-    (fields : List (String × Nat)) (perm : List Nat) (h h' : Heap) (id : Nat)
-    (hr : subclassOp F base name ns fields perm h = .ok h' id) :
+    (fields : List (String × Nat)) (perm : List Nat) (attrs : Option Kw) (h h' : Heap) (id : Nat)
+    (hr : subclassOp F base name ns fields perm attrs h = .ok h' id) :
     ∃ cl, h'.cls[id]? = some cl ∧ cl.fields = declaredFields F perm fields ∧ cl.orig = none
       ∧ cl.tn = some name ∧ cl.kind = .complex := by
   unfold subclassOp at hr
@@ -333,6 +333,11 @@ theorem mand_lookup (F : Facts15) (sc : Cls) :
     simp [normKw, normOne_type_name, normOne_min_occurs, normOne_nillable, normOne_min_len, kwLookup]
 
 
+theorem mand_no_pattern (F : Facts15) (sc : Cls) : kwLookup (normKw (mandatoryKw F sc)) "pattern" = none := by
+  unfold mandatoryKw
+  cases sc.tn <;> cases sc.kind <;>
+    simp [normKw, normOne_type_name, normOne_min_occurs, normOne_nillable, normOne_min_len, kwLookup]
+
 theorem numberKw_mandatory (F : Facts15) (hF : F.mslRule = .followsRequested) (h : Heap) (a : Nat) (sc : Cls) :
     numberKw F h a (mandatoryKw F sc) = mandatoryKw F sc := by
   unfold numberKw mandatoryKw
@@ -380,7 +385,9 @@ theorem mandatory_simple_exact (F : Facts15) [DeepCopy F] (hF : F.mslRule = .fol
   have hown : ∀ k v, kwLookup (normKw (mandatoryKw F sc2)) k = some v →
       kwLookup (newAttrRec F g4 sc2.attrs (mandatoryKw F sc2)).own k = some v := by
     intro k v hkv
-    simp only [newAttrRec, kwLookup, List.find?_append] at hkv ⊢
+    have hnp := mand_no_pattern F sc2
+    simp only [newAttrRec, hnp, List.nil_append]
+    simp only [kwLookup, List.find?_append] at hkv ⊢
     cases hf : List.find? (fun p => p.1 == k) (normKw (mandatoryKw F sc2)) with
     | none => simp [hf] at hkv
     | some p => simp [hf] at hkv ⊢; exact hkv
@@ -447,5 +454,60 @@ theorem simpleCustomize_col (F : Facts15) [DeepCopy F] (src : Nat) (kw : Kw) (h 
     (newAttrRec F g4 sc'.attrs (if (sc'.kind == Kind.number) = true then numberKw F g4 sc'.attrs kw else kw)) _
     (by simp) (newAttrRec_col F g4 sc'.attrs _)]
   rfl
+
+theorem simpleNewCls_same (F : Facts15) (hh : Heap) (sc : Cls) (src a : Nat) (kw : Kw) :
+    (simpleNewCls F hh sc src a kw).kind = sc.kind ∧ (simpleNewCls F hh sc src a kw).lo = sc.lo
+      ∧ (simpleNewCls F hh sc src a kw).hi = sc.hi := by
+  unfold simpleNewCls
+  split <;> exact ⟨rfl, rfl, rfl⟩
+
+/-- the class `SimpleModel.customize` returns is of the same kind, with the same hardware bounds -/
+theorem simpleCustomize_cls (F : Facts15) [DeepCopy F] (src : Nat) (kw : Kw) (h h' : Heap) (id : Nat)
+    (sc : Cls) (hsc : h.cls[src]? = some sc) (hr : simpleCustomize F src kw h = .ok h' id) :
+    ∃ cl, h'.cls[id]? = some cl ∧ cl.kind = sc.kind ∧ cl.lo = sc.lo ∧ cl.hi = sc.hi := by
+  unfold simpleCustomize at hr
+  obtain ⟨g1, sc', e1, hr1⟩ := bind_ok_inv _ _ _ _ _ hr
+  obtain ⟨hg1, hsc'⟩ := getCls_ok e1 hsc
+  subst hg1; subst hsc'
+  obtain ⟨g2, u2, e2, hr2⟩ := bind_ok_inv _ _ _ _ _ hr1
+  have hg2 := guardNone_ok e2; subst hg2
+  obtain ⟨g3, h0, e3, hr3⟩ := bind_ok_inv _ _ _ _ _ hr2
+  obtain ⟨hg3, hh0⟩ := getHeap_ok e3
+  subst hg3; subst hh0
+  obtain ⟨g4, u4, e4, hr4⟩ := bind_ok_inv _ _ _ _ _ hr3
+  have hg4 := guardNone_ok e4; subst hg4
+  obtain ⟨g5, a, e5, hr5⟩ := bind_ok_inv _ _ _ _ _ hr4
+  obtain ⟨ha5, hg5⟩ := allocDerived_ok F e5
+  subst ha5; subst hg5
+  obtain ⟨g6, h1, e6, hr6⟩ := bind_ok_inv _ _ _ _ _ hr5
+  obtain ⟨hg6, hh1⟩ := getHeap_ok e6
+  subst hg6; subst hh1
+  simp only [SpyneModel.Derive.allocCls] at hr6
+  cases hr6
+  exact ⟨_, List.getElem?_concat_length, (simpleNewCls_same _ _ _ _ _ _).1, (simpleNewCls_same _ _ _ _ _ _).2.1,
+    (simpleNewCls_same _ _ _ _ _ _).2.2⟩
+
+/-- EXACT (verdicts): the verdict function of the derived type is the verdict function of the requested facets on
+    top of the source's - validate_native / validate_string on every probe value decide exactly as the attributes
+    written by the keyword loop (including the regex the `pattern` setter compiles) and, for the rest, the
+    source's attributes call for -/
+theorem simpleCustomize_verdicts (F : Facts15) [DeepCopy F] (src : Nat) (kw : Kw) (h h' : Heap) (id : Nat) (ih : Inv h)
+    (sc : Cls) (hsc : h.cls[src]? = some sc) (hr : simpleCustomize F src kw h = .ok h' id) :
+    ∃ cl, h'.cls[id]? = some cl ∧ verdicts h' cl = verdictsFn sc.kind sc.lo sc.hi (fun k =>
+      match kwLookup (newAttrRec F h sc.attrs (if sc.kind == .number then numberKw F h sc.attrs kw else kw)).own k with
+      | some v => some v
+      | none => attrOf h src k) := by
+  obtain ⟨cl, hcl, hk, hlo, hhi⟩ := simpleCustomize_cls F src kw h h' id sc hsc hr
+  refine ⟨cl, hcl, ?_⟩
+  have hex := simpleCustomize_exact F src kw h h' id ih sc hsc hr
+  have hfun : attrAt h' cl.attrs = fun k =>
+      match kwLookup (newAttrRec F h sc.attrs (if sc.kind == .number then numberKw F h sc.attrs kw else kw)).own k with
+      | some v => some v
+      | none => attrOf h src k := by
+    funext k
+    have := hex k
+    simp only [attrOf, hcl] at this
+    exact this
+  simp only [verdicts, hk, hlo, hhi, hfun]
 
 end SpyneModel.Derive
